@@ -741,7 +741,8 @@ def plan(tier):
     for i, sp in enumerate(specs):
         sp["gen"] = "program" if i % 3 == 0 else "chain"
     scale = float(os.environ.get("VERIF_SCALE", "1"))
-    specs.append({"cases": max(50, int((400 if tier == "quick" else 12000) * scale)), "large": True, "scaled": True})
+    for _ in range(1 if tier == "quick" else 8):
+        specs.append({"cases": max(50, int((400 if tier == "quick" else 500) * scale)), "large": True, "scaled": True})
     if tier == "thorough":
         # <= 1% of the cases of the tier, on one shard (memory: ~220 MB while a case runs)
         specs.append({"cases": max(4, min(int(24 * scale), sum(s["cases"] for s in specs) // 100)), "large": True})
